@@ -25,6 +25,7 @@ func registerIntrinsics(p *Program) {
 	registerCrypto(p)
 	registerProm(p)
 	registerMisc(p)
+	registerNetModel(p)
 }
 
 // ---------------------------------------------------------------------------
@@ -241,6 +242,8 @@ func registerVerif(p *Program) {
 	p.reg("verif:verifAny", func(e *Exec, g *G, a []Value) Value { return e.tc.Or(boolArgs(e, a[0])...) })
 	p.reg("verif:verifImplies", func(e *Exec, g *G, a []Value) Value { return e.tc.Implies(a[0].(*Term), a[1].(*Term)) })
 	p.reg("verif:verifIteInt", func(e *Exec, g *G, a []Value) Value { return e.tc.Ite(a[0].(*Term), a[1].(*Term), a[2].(*Term)) })
+	p.reg("verif:verifRepeat", func(e *Exec, g *G, a []Value) Value { return e.tc.Const(64, 1) })
+	p.reg("verif:verifYield", func(e *Exec, g *G, a []Value) Value { return nil })
 	p.reg("verif:verifTime", func(e *Exec, g *G, a []Value) Value { return e.timeVal(a[0].(*Term)) })
 	p.reg("verif:verifEqNanos", func(e *Exec, g *G, a []Value) Value { return e.tc.Eq(a[0].(*Term), a[1].(*Term)) })
 	p.reg("verif:verifTier", func(e *Exec, g *G, a []Value) Value { return e.tc.Const(64, uint64(curTier)) })
